@@ -476,7 +476,8 @@ fn object(p: &mut Parser) -> CompletedMarker {
 			asserts.push(m.complete(p, MEMBER_ASSERT_STMT));
 		} else {
 			field_name(p);
-			if p.at(T![+]) {
+			let plus = p.at(T![+]);
+			if plus {
 				p.bump();
 			}
 			let params = if p.at(T!['(']) {
@@ -486,7 +487,8 @@ fn object(p: &mut Parser) -> CompletedMarker {
 				true
 			} else {
 				visibility(p);
-				if p.at(T![function]) {
+				// `f+: function(..) ..` has no method form
+				if !plus && p.at(T![function]) {
 					p.bump_assert(T![function]);
 					params_desc(p);
 					expr(p);
